@@ -1,6 +1,26 @@
 import DepsDev.Proofs.C02Dec
 import DepsDev.Proofs.C01MavenShape
 
+/-!
+# C02 — Maven, part 1: bytes and words
+
+`maven_agree_partial` (Props/C02.lean): on the Maven-Central shape the library's comparison has the
+sign of `ComparableVersion.compareTo`. The proof, in parts:
+
+1. (this file) categories of element texts; the qualifier words both sides treat specially
+   (`word_cases`), what each side makes of any other word (`mavenOrder_unknown`, `cv_unknown`);
+2. `C02MvnTrim`: the trimming loop of `mavenExtension.init` is a stack machine (`mavenTrim_eq`);
+3. `C02MvnKey`: `Item.compareTo` on the items of two element lists (`treeOf`) is C01's key order
+   (`cmpList_treeOf`), position by position;
+4. `C02MvnElems`: the elements of `embedMaven a` in closed form (`embed_elems`);
+5. `C02MvnItems`: `new ComparableVersion(v).items` in closed form (`items_eq`);
+6. `C02MvnAgree`: the hypotheses on the tree give good element lists; the first element;
+   `maven_agree` via C01's `mavenCompare_eq` (domain without `ZeroDotQual`);
+7. `C02MvnDirect`: the loop against ComparableVersion step by step, without the key order
+   (`maven_agree'`, `ZeroDotQual` included);
+8. `C02MvnShape`: the elements are in C01's `MavenShape`; 9. `C02Mvn39`: Maven 3.8.7/3.9;
+10. `C02MvnParse`: `System.Parse` on the normal form yields `embedMaven` (`parse_render`).
+-/
 namespace DepsDev.Proofs.C02Mvn
 open DepsDev DepsDev.Semver DepsDev.Ref DepsDev.Proofs DepsDev.Proofs.C02
 open DepsDev.Ref.MavenCV (Item Sep Tok wAlpha wBeta wMilestone wRc wCr wSnapshot wSp wGa wFinal wRelease)
@@ -45,13 +65,6 @@ theorem mcat_lower (sep : UInt8) (c : UInt8) (t : Bytes) (i : Int) (h : MavenCV.
     simp only [Bool.or_eq_false_iff, beq_eq_false_iff_ne, ne_eq]
     constructor <;> (intro e; subst e; simp at h')
   simp [h1, h2, h3]
-
-end DepsDev.Proofs.C02Mvn
-
-namespace DepsDev.Proofs.C02Mvn
-open DepsDev DepsDev.Semver DepsDev.Ref DepsDev.Proofs DepsDev.Proofs.C02
-open DepsDev.Ref.MavenCV (Item Sep Tok wAlpha wBeta wMilestone wRc wCr wSnapshot wSp wGa wFinal wRelease)
-open DepsDev.Gen.SemverTables (versionNumeric versionQualifier versionEOF versionSeparator mavenEmptyQualifier mavenQualifierOrder)
 
 /-- `q` is none of the table's words. -/
 def unknownW (q : Bytes) : Bool := !tableWords.contains q
